@@ -7,8 +7,8 @@ degree grid, multi-turn, exactly 360 degrees, zig-zag with a corrupted scan, irr
 master with a counter group and a 2-D detector) and the files the operations write.  Mode B: the harness builds the
 master / Lima / segmentation files with h5py from the table the specification prints, then replays
 
-  * every transition TLC explores to depth 2 from 4 start forms (fresh / import_all / saved+reloaded / harvested +
-    import_from_sparse) - representative path of each distinct state + one more operation,
+  * every transition TLC explores to depth 2 from 5 start forms (fresh / import_all / saved+reloaded / peak tables
+    cached / harvested + import_from_sparse) - representative path of each distinct state + one more operation,
   * seeded random behaviours of 9 operations (tlc -simulate), compared after EVERY step,
 
 on the real DataSet and compares the full projection (path strings, lists, arrays with dtype and container kind,
@@ -26,9 +26,11 @@ import x06_replay as XR
 PROP = "X06"
 FLAGS = ["bug_sinohist", "bug_load360", "bug_ystep", "bug_badscan", "bug_savedef", "bug_saveshape", "bug_stalebins",
          "bug_compare"]
-ACTIONS = ["UpdatePaths", "SetName", "SetParfile", "SetAnalysisPath", "ImportScans", "ImportImagefiles", "ImportMotors",
-           "GuessShape", "GuessBins", "ImportNnz", "ImportAll", "Harvest", "ImportFromSparse", "HalfScan", "SetMonitor",
-           "Save", "Load", "LoadNew", "Poke", "WritePks", "PeaksTable", "Pk2d", "Pk4d", "ResetCache"]
+# vacuity guard: every operation must occur, with result "ok", among the replayed transitions (TLC's -coverage exhausts
+# the heap on this specification, so the guard is taken from what was actually replayed on the real code)
+OPS = ["update_paths", "set_name", "import_scans", "import_imagefiles", "import_motors_from_master", "guess_shape",
+       "guessbins", "import_nnz", "import_all", "harvest", "import_from_sparse", "correct_bins_for_half_scan",
+       "set_monitor", "save", "load", "load_new", "poke", "write_pks", "peaks_table", "pk2d", "pk4d", "reset_peaks_cache"]
 # defect: flag, [(cfg name, law)], finding id
 DEFECTS = [
     ("bug_sinohist", [("bug_sinohist", "HistMatchesEdges")], "X06-sinohist-multiturn-rows"),
@@ -60,14 +62,14 @@ WHAT = {
                    "ALL elements differ (dataset.py:254,271), and load(save(x)).compare(x) is never True after "
                    "import_all (frames_per_scan list vs ndarray, python vs numpy floats, imageshape not persisted)",
 }
-ALLDS = ["R180", "M360", "E360", "ZIG", "IRR", "RPT", "F2D", "BADS"]
-ALLFORMS = ["fresh", "imported", "saved", "sparse"]
+ALLDS = ["R180", "M360", "M72", "E360", "ZIG", "IRR", "RPT", "F2D", "BADS"]
+ALLFORMS = ["fresh", "imported", "saved", "cached", "sparse"]
 
 
 # ----------------------------------------------------------------------------------------------
 # configurations: the static files hold the all-pinned / all-repaired variants; a mixed tree gets a generated copy
 
-def cfgfile(kind, flags, ds=None, forms=None, depth=None):
+def cfgfile(kind, flags, ds=None, forms=None, depth=None, emit=None):
     allbug, nobug = all(flags[f] for f in FLAGS), not any(flags[f] for f in FLAGS)
     if kind.startswith("bug_"):
         base, static_ok = kind, allbug
@@ -75,7 +77,7 @@ def cfgfile(kind, flags, ds=None, forms=None, depth=None):
         # the _asis files check only the laws that are not tied to a BUG_ flag: right for any tree that shows a defect
         base, static_ok = kind + ("_fixed" if nobug else "_asis"), allbug or nobug
     path = os.path.join(common.SPECS, "DataSetState_%s.cfg" % base)
-    if static_ok and ds is None and forms is None and depth is None:
+    if static_ok and ds is None and forms is None and depth is None and emit is None:
         return path
     txt = open(path).read()
     for f in FLAGS:
@@ -86,6 +88,10 @@ def cfgfile(kind, flags, ds=None, forms=None, depth=None):
         txt = re.sub(r"StartForms = \{[^}]*\}", "StartForms = {%s}" % ", ".join('"%s"' % d for d in forms), txt)
     if depth is not None:
         txt = re.sub(r"MaxDepth = \d+", "MaxDepth = %d" % depth, txt)
+    if emit is not None:
+        txt = re.sub(r"EmitMode = \d+", "EmitMode = %d" % emit, txt)
+        if emit != 1:
+            txt = txt.replace("ACTION_CONSTRAINT EmitTransition\n", "")
     cfgfile.n += 1
     out = os.path.join(common.scratch(), "x06_%s_%d.cfg" % (kind, cfgfile.n))
     with open(out, "w") as f:
@@ -135,6 +141,7 @@ def probe(W):
         det["bug_load360"] = {"before": a[0].tolist(), "after": t.omega_for_bins[0].tolist()}
         R.cleanup()
         R = XR.Real(W, "R180", "imported")
+        R.x.save()
         R.x.correct_bins_for_half_scan(-1)
         t = XR.round_trip(R, R.x, "p")
         out["bug_ystep"] = abs(float(t.ystep) - float(R.x.ystep)) > 1e-9
@@ -189,7 +196,7 @@ def probe(W):
 _G = {}
 
 
-def replay_record(rec, every_step=False, do_laws=True):
+def replay_record(rec, every_step=False, do_laws=None):
     """returns list of (class, message); rec = {"start": {d, form}, "h": [{op, ret?, st?}, ...]}"""
     W, flags = _G["W"], _G["flags"]
     d, form = rec["start"]["d"], rec["start"]["form"]
@@ -215,6 +222,8 @@ def replay_record(rec, every_step=False, do_laws=True):
                                   % (d, form, k + 1, op, df, json.dumps(XR.pick(e["st"], df))[:1500],
                                      json.dumps(XR.pick(rs, df))[:1500])))
                     break
+        if do_laws is None:
+            do_laws = rec.get("laws", True)
         if do_laws and not probs:
             pad = bool(h[-1]["st"]["x"].get("pad")) if h and "st" in h[-1] else False
             for law, msg in XR.laws(R, pad):
@@ -246,7 +255,12 @@ def run_parallel(recs, every_step, nproc):
         XR.STATS[k] = 0
     ctx = multiprocessing.get_context("fork")
     with ctx.Pool(nproc) as pool:
-        out = pool.map(_work, [(r, every_step) for r in recs], chunksize=max(1, len(recs) // (nproc * 8)))
+        job = pool.map_async(_work, [(r, every_step) for r in recs], chunksize=max(1, len(recs) // (nproc * 8)))
+        try:
+            out = job.get(timeout=60 + 2.0 * len(recs))
+        except multiprocessing.TimeoutError:
+            pool.terminate()
+            raise common.MachineryError("replay workers did not finish (%d behaviours)" % len(recs))
     # STATS of the workers: the last report of each record is cumulative per worker; take the maximum seen per worker
     stats = {}
     for probs, st in out:
@@ -299,20 +313,21 @@ def _untuple(x):
 def run(tier, replay=None):
     chk = common.Check(PROP, tier)
     shadow = common.build_shadow("normal")
+    # behaviours are replayed in forked workers: numba must not share an OpenMP runtime with the parent's extension
+    os.environ.setdefault("NUMBA_THREADING_LAYER", "workqueue")
+    os.environ.setdefault("NUMBA_NUM_THREADS", "2")
     common.use_shadow(shadow)
     M = XR.Mods()
     if not os.path.realpath(M.D.__file__).startswith(os.path.realpath(common.REPO)):
         raise common.MachineryError("ImageD11.sinograms.dataset resolved to %s" % M.D.__file__)
-    import numba
-    numba.set_num_threads(2)
     nproc = 8
-    chk.rule = ("TLC explores DataSetState.tla breadth first from (8 synthetic experiments) x (4 start forms); every "
+    chk.rule = ("TLC explores DataSetState.tla breadth first from (9 synthetic experiments) x (5 start forms); every "
                 "transition (representative path of each distinct state + one more operation) is replayed on the real "
                 "DataSet and the full projection, the files written and the return value are compared; random behaviours "
                 "of 9 operations are compared after every step; the laws are judged on the real object at the end of each "
                 "behaviour; distinct = distinct (experiment, start form, operation sequence); non-trivial = >= 2 operations")
     chk.assumptions = ["synthetic bliss master / Lima / segmentation files made with h5py from the table the specification "
-                       "prints (eiger, rot_center, dty, fpico6; 4x5 pixel frames); motor positions are multiples of 1/24",
+                       "prints (eiger, rot_center, dty, fpico6; 4x5 pixel frames); motor positions and bin quantities are multiples of 1/144 (the model asserts it)",
                        "import_scans / import_imagefiles / import_nnz / harvest_masterfile are explored while masterfile is "
                        "the bliss master; harvest_masterfile only when it can run to completion",
                        "f2scan shape guessing, get_cf_* / spatial correction, grains to disk (C18 owns the grain file), "
@@ -339,14 +354,12 @@ def run(tier, replay=None):
     # 1. exhaustive to depth 2, every transition emitted and replayed
     seedv = common.seed()
     if tier == "quick":
-        ds = [ALLDS[(seedv + i) % len(ALLDS)] for i in (0, 3, 5)]
+        ds = [ALLDS[(seedv + i) % len(ALLDS)] for i in (0,)]
         forms = ALLFORMS
     else:
         ds, forms = None, None
-    res = common.run_tlc("DataSetState", cfgfile("conf", flags, ds=ds, forms=forms), workers=16, timeout=1500,
-                         coverage=(tier != "quick"))
-    chk.add_tlc("DataSetState depth 2, all transitions emitted (%s)" % ("all experiments" if ds is None else ",".join(ds)),
-                res, require_cover=ACTIONS if tier != "quick" else ())
+    res = common.run_tlc("DataSetState", cfgfile("conf", flags, ds=ds, forms=forms), workers=16, timeout=1500, heap="8g")
+    chk.add_tlc("DataSetState depth 2, all transitions emitted (%s)" % ("all experiments" if ds is None else ",".join(ds)), res)
     if res.violated:
         raise common.MachineryError("the conformance model violates %s (these laws hold for the pinned and the repaired "
                                     "code)\n%s" % (res.violated, res.stdout[-1500:]))
@@ -354,6 +367,14 @@ def run(tier, replay=None):
     if nbad:
         raise common.MachineryError("%d unparsable TLC output lines" % nbad)
     del res
+    if tier == "quick":
+        # every experiment and start form to depth 1
+        res1 = common.run_tlc("DataSetState", cfgfile("conf", flags, depth=1), workers=16, timeout=900)
+        chk.add_tlc("DataSetState depth 1, all transitions emitted (all experiments)", res1)
+        if res1.violated:
+            raise common.MachineryError("the conformance model violates %s\n%s" % (res1.violated, res1.stdout[-1500:]))
+        recs += split_printed(res1)[2]
+        del res1
     t0 = time.time()
     seen = set()
     uniq = []
@@ -362,9 +383,22 @@ def run(tier, replay=None):
         if key not in seen:
             seen.add(key)
             uniq.append(rec)
+    import hashlib
+    lawseen = set()
+    for rec in uniq:
+        st = rec["h"][-1]["st"]
+        hk = hashlib.md5(json.dumps([st["x"], st["y"], st["disk"]], sort_keys=True).encode()).digest()
+        rec["laws"] = hk not in lawseen
+        lawseen.add(hk)
+    chk.notes["distinct_final_states_law_judged"] = len(lawseen)
     results, stats = run_parallel(uniq, False, nproc)
+    okops, excs = set(), set()
     for k, (rec, probs) in enumerate(results):
         ops = [e["op"] for e in rec["h"]]
+        if rec["h"][-1]["ret"] == "ok":
+            okops.add(ops[-1][0])
+        else:
+            excs.add("%s:%s" % (ops[-1][0], rec["h"][-1]["ret"]))
         chk.case(json.dumps([rec["start"], ops]), nontrivial=len(ops) >= 2)
         chk.traces += 1
         if k in (7, 777, 7777):
@@ -372,16 +406,25 @@ def run(tier, replay=None):
         for cls, p in probs:
             judge.report(cls, p, {"kind": "behaviour", "rec": rec, "every_step": False})
     chk.notes["replay_s"] = round(time.time() - t0, 1)
+    chk.notes["operations_replayed_ok"] = sorted(okops)
+    chk.notes["operation_failures_replayed"] = sorted(excs)
+    if set(OPS) - okops:
+        raise common.MachineryError("vacuity: operations never replayed with result ok: %s" % sorted(set(OPS) - okops))
     merged = dict(stats or XR.STATS)
     del recs, uniq, results
 
     # 2. random long behaviours, compared after every step
-    nsim = 150 if tier == "quick" else 1500
+    nsim = 100 if tier == "quick" else 3000
     k = 0
     for b0 in range(0, nsim, 500):
         nb = min(500, nsim - b0)
         ress = common.run_tlc("DataSetState", cfgfile("sim", flags), workers=1, simulate=nb, depth=10, timeout=1500,
                               seed_=seedv + b0 // 500)
+        if ress.error and "inexact division" in (ress.stdout or "") and not ress.violated:
+            # a random behaviour left the alphabet in which every quantity is a multiple of 1/DEN (cascaded stale bins):
+            # the behaviours printed before that are complete and are replayed
+            chk.notes.setdefault("simulation_batches_cut_at_inexact_state", []).append(seedv + b0 // 500)
+            ress.error = None
         chk.add_tlc("DataSetState simulate %d x 9 operations (seed %d)" % (nb, seedv + b0 // 500), ress)
         if ress.violated:
             raise common.MachineryError("the model violates %s in simulation\n%s" % (ress.violated, ress.stdout[-1500:]))
@@ -427,8 +470,14 @@ def run(tier, replay=None):
                                                   "reproduced_on_real_code": bool(broken),
                                                   "real_state_is_the_BUG_model_state": not conf}
             if not broken:
-                raise common.MachineryError("probe shows %s but TLC's counterexample %s %s %s does not break %s on the real "
-                                            "code" % (flag, d, form, ops, law))
+                # the tree shows the defect class (probe) but not on the specification's counterexample: the code departs
+                # from the model that explains the finding
+                judge.report("defect-mismatch:" + law,
+                             "the probe shows %s (%s) but TLC's counterexample (%s, %s, %s) does not break %s on the real code%s"
+                             % (flag, json.dumps(detail.get(flag))[:300], d, form, ops, law,
+                                " ; conformance: %s" % conf[0][1] if conf else ""),
+                             {"kind": "law", "law": law, "d": d, "form": form, "h": h})
+                continue
             what = "%s ; TLC counterexample (%s, %s, %s) reproduced: %s" % (WHAT[flag], d, form, ops, broken[0])
             if chk.finding(fid) and not conf:
                 chk.known_finding(fid, what)
@@ -439,14 +488,14 @@ def run(tier, replay=None):
 
     if tier == "thorough":
         nobug = not any(flags.values())
-        r3 = common.run_tlc("DataSetState", cfgfile("d3", flags), workers=16, timeout=3000, coverage=True)
-        chk.add_tlc("DataSetState depth 3 (laws of the tree's model)", r3, require_cover=ACTIONS)
+        r3 = common.run_tlc("DataSetState", cfgfile("d3", flags), workers=16, timeout=3000)
+        chk.add_tlc("DataSetState depth 3 from R180 / F2D imported / saved (laws of the tree's model)", r3)
         if r3.violated:
             raise common.MachineryError("the model violates %s at depth 3\n%s" % (r3.violated, r3.stdout[-1500:]))
         if not nobug:
-            rf = common.run_tlc("DataSetState", os.path.join(common.SPECS, "DataSetState_conf_fixed.cfg"), workers=16,
-                                timeout=3000, print_prefix="@@@")
-            chk.add_tlc("DataSetState depth 2, model of the repaired code: all laws", rf)
+            rf = common.run_tlc("DataSetState", cfgfile("conf", dict((f, False) for f in FLAGS), emit=3), workers=16,
+                                timeout=3000)
+            chk.add_tlc("DataSetState depth 2 (all experiments and start forms), model of the repaired code: all laws", rf)
             if rf.violated:
                 raise common.MachineryError("the repaired model violates %s\n%s" % (rf.violated, rf.stdout[-1500:]))
         selftest(W)
@@ -557,6 +606,7 @@ def selftest(W=None):
                 raise common.MachineryError("selftest: perturbed %s not rejected" % (path,))
         # law judges
         R.x.ybincens = R.x.ybincens[:2].copy()
+        R.x.ybinedges = R.x.ybinedges[:3].copy()
         got = [l for l, m in XR.laws(R, False, destructive=False)]
         if "CentresAreMotors" not in got:
             raise common.MachineryError("selftest: stale ybincens not rejected by the law judge (%s)" % got)
